@@ -32,7 +32,13 @@ pub struct ScriptCase {
     /// additional `ucinewgame` commands sent before the final one (counters that wrap: 255, 256, 257, 65536 …)
     #[serde(default)]
     pub resets: u32,
+    /// the last search before the reset: 0 nothing extra, 1 a lost position, 2 a won position, 3 a position with a mate in one (whatever a search leaves behind about its own outcome must not reach the searches after the reset)
+    #[serde(default)]
+    pub last_before_reset: u8,
 }
+
+/// (lost, won, mate in one) for the side to move; validated by `selftest`
+pub const OUTCOMES: [&str; 3] = ["6k1/8/8/8/8/8/q7/6K1 w - - 0 1", "6k1/8/8/8/8/8/1Q6/6K1 w - - 0 1", "6k1/5ppp/8/8/8/8/8/R5K1 w - - 0 1"];
 
 pub struct C19;
 
@@ -96,7 +102,7 @@ impl Prop for C19 {
     }
 
     fn rule(&self) -> String {
-        "Cases: a script of 1-4 (`position fen … moves …`, `go depth 1-5`, `wait`) steps on generated positions, run three ways against the real binary: (A) fresh process; (B) fresh process under a generated perturbation - `nice -n 15`, ASLR disabled (`setarch -R`), 0-4 kB of environment padding (moves stack and heap layout), pinned to one CPU (`taskset`), schedule-point delays 0/20/100 ms, the process frozen for 3.4 s in the middle of the first search (SIGSTOP/SIGCONT: wall-clock time passes, the search does not), while up to 7 sibling shards load the machine; (C) a process that first searches a generated unrelated history (one time in five ending with `go depth 1 movetime 60`, whose timer is still pending while the script's first search, then raised to depth 6, runs), then `ucinewgame`, then the script; two times in five the history also searches the script's own positions one ply deeper, and two times in seven the reset is preceded by 1-65537 further `ucinewgame` commands (values around 128, 256, 512, 65536, where a wrapping generation counter would bring entries back to life). Oracle: the three transcripts (every `info` line and `bestmove`) are byte-identical. Four fixed DEEP scripts (depth 7-9, tables of 10^5 entries and more) are run the same three ways in every tier. evaluations = script runs compared (3 per case). Non-trivial script: contains a search of depth >= 3 on a root with at least two legal moves; distinct by script.".into()
+        "Cases: a script of 1-4 (`position fen … moves …`, `go depth 1-5`, `wait`) steps on generated positions, run three ways against the real binary: (A) fresh process; (B) fresh process under a generated perturbation - `nice -n 15`, ASLR disabled (`setarch -R`), 0-4 kB of environment padding (moves stack and heap layout), pinned to one CPU (`taskset`), schedule-point delays 0/20/100 ms, the process frozen for 3.4 s in the middle of the first search (SIGSTOP/SIGCONT: wall-clock time passes, the search does not), while up to 7 sibling shards load the machine; (C) a process that first searches a generated unrelated history (one time in five ending with `go depth 1 movetime 60`, whose timer is still pending while the script's first search, then raised to depth 6, runs), then `ucinewgame`, then the script; one walk in four ends in 5-9 take-backs (a root showing the pattern of the repetition filter); half of the histories end with a depth-2 search of a lost, a won or a mate-in-one root; two times in five the history also searches the script's own positions one ply deeper, and two times in seven the reset is preceded by 1-65537 further `ucinewgame` commands (values around 128, 256, 512, 65536, where a wrapping generation counter would bring entries back to life). Oracle: the three transcripts (every `info` line and `bestmove`) are byte-identical. Four fixed DEEP scripts (depth 7-9, tables of 10^5 entries and more) are run the same three ways in every tier. evaluations = script runs compared (3 per case). Non-trivial script: contains a search of depth >= 3 on a root with at least two legal moves; distinct by script.".into()
     }
 
     fn assumptions(&self) -> Vec<String> {
@@ -124,10 +130,19 @@ impl Prop for C19 {
     }
 
     fn strategy(&self, _ctx: &Ctx) -> BoxedStrategy<ScriptCase> {
-        let search = || (walk_strategy(false), prop_oneof![1 => 1u8..3, 3 => 3u8..5, 1 => Just(5u8)]);
+        // one walk in four ends with 5-9 take-backs (both sides moving a piece out and back): the root then shows the
+        // pattern the root repetition filter looks for
+        let search = || {
+            (walk_strategy(false), prop_oneof![3 => Just(0usize), 1 => 5usize..10], prop_oneof![1 => 1u8..3, 3 => 3u8..5, 1 => Just(5u8)]).prop_map(|(mut walk, undo, depth)| {
+                for _ in 0..undo {
+                    walk.picks.push(Pick { kind: PK_UNDO, idx: 0 });
+                }
+                (walk, depth)
+            })
+        };
         let resets = prop_oneof![5 => Just(0u32), 2 => prop::sample::select(vec![1u32, 2, 3, 127, 128, 255, 256, 257, 511, 512, 1024, 65535, 65536, 65537])];
-        (vec(search(), 1..5), vec(search(), 1..4), prop_oneof![9 => 0u8..16, 1 => 16u8..32], 0u16..4096, vec((0u8..9, 0u8..3), 0..4), prop::bool::weighted(0.2), prop::bool::weighted(0.4), resets)
-            .prop_map(|(searches, history, perturb, pad, sched, timed_history, same_history, resets)| ScriptCase { searches, history, perturb, pad, sched, timed_history, same_history, resets })
+        (vec(search(), 1..5), vec(search(), 1..4), prop_oneof![9 => 0u8..16, 1 => 16u8..32], 0u16..4096, vec((0u8..9, 0u8..3), 0..4), prop::bool::weighted(0.2), prop::bool::weighted(0.4), resets, prop_oneof![1 => Just(0u8), 1 => 1u8..4])
+            .prop_map(|(searches, history, perturb, pad, sched, timed_history, same_history, resets, last_before_reset)| ScriptCase { searches, history, perturb, pad, sched, timed_history, same_history, resets, last_before_reset })
             .boxed()
     }
 
@@ -148,6 +163,7 @@ impl Prop for C19 {
                 timed_history: false,
                 same_history: i % 2 == 0,
                 resets: [256, 0, 65536, 0][i],
+                last_before_reset: i as u8,
             };
             ctx.note_inflight("C19", &case);
             ev.class("deep_scripts");
@@ -252,6 +268,15 @@ impl C19 {
                 return Ok(());
             }
             ev.class("histories_ending_with_a_pending_timer");
+        }
+        if case.last_before_reset % 4 != 0 {
+            let fen = OUTCOMES[(case.last_before_reset % 4 - 1) as usize];
+            let last = vec![(format!("position fen {}", fen), "go depth 2".to_string())];
+            if transcript(&mut c, &last).is_err() {
+                ev.inconclusive("history run did not finish within the time limit");
+                return Ok(());
+            }
+            ev.class("histories_whose_last_search_is_a_lost_won_or_mated_root");
         }
         if case.resets > 0 {
             for k in 0..case.resets {
